@@ -163,7 +163,7 @@ def e_machine(tier, shard, nshards):
                 failing["case"] = {**self.case, "ops": list(self.case["ops"])}
                 raise
 
-        @rule(data=st.one_of(st.binary(min_size=1, max_size=40), st.binary(min_size=1, max_size=600), st.sampled_from([b"\r\n", b"\r", b"\n", b"abc\r\n"])))
+        @rule(data=st.one_of(st.binary(min_size=1, max_size=40), st.binary(min_size=1, max_size=600), st.sampled_from([b"\r\n", b"\r", b"\n", b"abc\r\n"]), _CRLF))
         def peer_sends(self, data):
             self._do(["send", data.hex()])
 
@@ -251,8 +251,14 @@ def e_long(tier, shard, nshards):
             yield {"bufsize": bufsize, "init": [], "ops": ops, "empty": "timeout", "long": total}
 
 
+# text dense in carriage returns and line feeds: every way a CR LF pair can be preceded, split or doubled
+_CRLF = st.lists(st.sampled_from([b"\r", b"\r", b"\n", b"\r\n", b"\r\r\n", b"\n\r", b"a", b"bc", b"$G", b"\xd3"]), min_size=1, max_size=8).map(b"".join)
+
+
 def _payloads():
-    return st.one_of(st.binary(min_size=1, max_size=40), st.binary(min_size=1, max_size=600), st.sampled_from([b"\r\n", b"\r", b"\n", b"abc\r\n", b"$GNGGA,1\r\nxyz"])).map(lambda b: ["send", b.hex()])
+    return st.one_of(
+        _CRLF,st.binary(min_size=1, max_size=40), st.binary(min_size=1, max_size=600), st.sampled_from([b"\r\n", b"\r", b"\n", b"abc\r\n", b"$GNGGA,1\r\nxyz"]),
+    ).map(lambda b: ["send", b.hex()])
 
 
 @st.composite
